@@ -9,7 +9,7 @@ SWEEP = "bounded-exhaustive enumeration (every case of an explicitly bounded inp
 
 CHECKS = {
  "C01": dict(level="model_checking", engine="sweep+bfs", technique=BFS,
-   text="Every document of a weight-bounded space, every extend-history of a breadth-first search over the real extend_struct (exact-key states, every transition judged against every document of its history) and every small tree over subsets of an adversarial name pool is rendered and each source document is walked against the rendering.",
+   text="Every document of several weight-bounded spaces (plain, three names, depth 6, entity text), nesting chains to depth 120, every extend-history of a breadth-first search over the real extend_struct (exact-key states, every transition judged against every document of its history) and every small tree over subsets of an adversarial name pool is rendered and each source document is walked against the rendering.",
    note="bounded alphabets/weights/depths (see evidence); harness DOM reader and line-grammar reader of the rendered source are trusted (the latter is cross-checked against syn in C04)", ref="DESIGN.md §4 C01"),
  "C03": dict(level="model_checking", engine="sweep+bfs", technique=BFS,
    text="Equality (not inclusion) of the rendered schema and of the internal tree with an independent DOM-based definition of the inference, for every document of a bounded space and every transition of a breadth-first search over extend_struct.",
@@ -48,6 +48,8 @@ man = {
    {"name": "bfs", "path": "harness/src/bfs.rs", "serves_properties": ["C01", "C03", "C06", "C09", "C16"], "kind_free_text": "level-synchronous explicit-state search over real transition functions, exact string keys, merge audit"},
    {"name": "choice-explorer", "path": "harness/src/choice.rs", "serves_properties": ["C05", "C07", "C11"], "kind_free_text": "deviation-bounded exhaustive exploration of environment answers (hash iteration order, BufRead behaviour)"},
    {"name": "program-farm", "path": "harness/src/progfarm.rs + farm-template/", "serves_properties": ["C02", "C13"], "kind_free_text": "writes every distinct generated program as a Rust module, builds 16 shard binaries with cargo/rustc offline, runs them against their source documents"},
+   {"name": "depthprobe", "path": "depthprobe/", "serves_properties": ["C07"], "kind_free_text": "tiny binary that runs the nesting templates against the library compiled at opt-level 0 (largest stack frames) on a 2 MiB stack; child of the C07 driver"},
+   {"name": "stateright cross-check", "path": "harness/src/props/c16.rs", "serves_properties": ["C16"], "kind_free_text": "C16's state machine given to stateright 0.31's BFS checker; unique-state counts must equal the own engine's"},
    {"name": "cli-driver", "path": "harness/src/props/c12.rs", "serves_properties": ["C12"], "kind_free_text": "runs the real command-line binary over a finite product of inputs, flags and output targets"},
    {"name": "sweep", "path": "harness/src/par.rs + harness/src/docspace.rs", "serves_properties": ["C01", "C02", "C03", "C04", "C07", "C08", "C09", "C10", "C11", "C13", "C14", "C15"], "kind_free_text": "index-addressable bounded-exhaustive input spaces sharded over 16 workers"},
  ],
